@@ -192,6 +192,7 @@ func gen(rt *rapid.T) (trial.Trial, bool) {
 	if tr.Start == "gosched" {
 		tr.Yields = rapid.SliceOfN(rapid.IntRange(0, 5), 1, 4).Draw(rt, "yields")
 	}
+	tr.Reps = rapid.SampledFrom([]int{1, 1, 20, 200}).Draw(rt, "reps")
 	firstUse := rapid.IntRange(0, 3).Draw(rt, "first-use-race") > 0
 	var hot trial.Op
 	if firstUse {
@@ -209,6 +210,15 @@ func gen(rt *rapid.T) (trial.Trial, bool) {
 			ops = append(ops, genOp(rt, trial.All))
 		}
 		tr.Goroutines = append(tr.Goroutines, ops)
+	}
+	// a quarter of the trials are "hammer" trials: few cheap operations, many repetitions, all goroutines on the
+	// same small alphabet with different arguments (value corruption through shared caches is not a data race)
+	if rapid.IntRange(0, 3).Draw(rt, "hammer") == 0 {
+		tr.Reps = rapid.SampledFrom([]int{2000, 20000}).Draw(rt, "hammerreps")
+		names := []string{rapid.SampledFrom([]string{"Adapt", "ToXYZ", "From8To8", "From16", "To16", "LineariseColor", "EncodeColor"}).Draw(rt, "hammerop")}
+		for g := range tr.Goroutines {
+			tr.Goroutines[g] = []trial.Op{genOp(rt, names), genOp(rt, names)}
+		}
 	}
 	nt := firstUse
 	for _, ops := range tr.Goroutines {
